@@ -25,8 +25,8 @@ QUICK_UNITS = [
     "src/Estimation/CalcKriging.cpp", "src/Estimation/CalcKrigingFactors.cpp",
     "src/Estimation/CalcGlobal.cpp", "src/Estimation/CalcImage.cpp", "src/Core/krige.cpp",
     "src/Variogram/Vario.cpp", "src/Variogram/AVario.cpp",
-    "src/Neigh/ANeigh.cpp", "src/Neigh/NeighBench.cpp", "src/Neigh/NeighMoving.cpp", "src/Neigh/NeighCell.cpp", "src/Basic/Rotation.cpp", "src/LinearOp/IProjMatrix.cpp", "src/Basic/Grid.cpp",
-    "src/Anamorphosis/AnamEmpirical.cpp", "src/Basic/Indirection.cpp", "src/Skin/Skin.cpp",
+    "src/Neigh/ANeigh.cpp", "src/Neigh/NeighBench.cpp", "src/Neigh/NeighMoving.cpp", "src/Neigh/NeighCell.cpp", "src/Basic/Rotation.cpp", "src/Basic/Tensor.cpp", "src/LinearOp/IProjMatrix.cpp", "src/Basic/Grid.cpp",
+    "src/Anamorphosis/AnamEmpirical.cpp", "src/Anamorphosis/AnamHermite.cpp", "src/Simulation/CalcSimuTurningBands.cpp", "src/Basic/Indirection.cpp", "src/Skin/Skin.cpp",
 ]
 
 
@@ -891,6 +891,94 @@ def r10_5(prog, chk):
     chk.floor("R10.5", n, 8)
 
 
+# derived members: (class, source members, derived member): a method that writes a source member also refreshes the derived one
+DERIVED = [
+    ("Tensor", {"_radius"}, "_isotropic", "cached answer of 'are all radii equal' (read by getRange(), the printout, the serialisation, the turning bands)"),
+    ("Tensor", {"_radius", "_rotation"}, "_tensorDirect", "matrix of the anisotropy, built from the radii and the rotation"),
+    ("Rotation", {"_rotMat"}, "_rotInv", "inverse rotation matrix"),
+]
+
+
+def r10_5b(prog, chk):
+    """R10.5b - derived members are refreshed with their sources: an object updated incrementally answers as one built with the
+    same final content only if every member function that writes a source member also rewrites what is derived from it."""
+    import c08_order
+    eff = c08_order.Effects(prog)
+    n = 0
+    for (K, srcs, derived, what) in DERIVED:
+        meths = [f for f in prog.funcs if f.cls == K and f.body is not None and f.kind == "method" and not f.d.get("const") and not f.short.startswith("operator")]
+        if not meths:
+            raise facts.AnalysisBroken("class %s (derived members) not analysed" % K)
+        for f in sorted(meths, key=lambda x: x.line):
+            R, W = eff.rw(f)
+            touched = {s_ for s_ in srcs if K + "::" + s_ in W}
+            if not touched or f.short in ("_updateIsotropic", "_fillTensors", "_directToInverse", "_inverseToDirect"):
+                continue
+            n += 1
+            chk.analysed(f)
+            ok = (K + "::" + derived) in W
+            chk.ob("R10.5b", "%s: writing %s also refreshes %s" % (f.sig(), ", ".join(sorted(touched)), derived), f.loc(), ok,
+                   detail=None if ok else "%s is %s; this method changes %s and leaves it as it was: the object then answers differently from one built "
+                   "directly with the same final content" % (derived, what, ", ".join(sorted(touched))),
+                   key="R10.5b|%s/%d|%s" % (f.name, len(f.params), derived))
+    chk.floor("R10.5b", n, 8)
+
+
+def r10_4b(prog, chk):
+    """R10.4b - function-local static memos.  A block that refreshes function-local statics under a guard (`if (first ||
+    key != key_mem) { coeff = f(inputs); key_mem = key; }`) makes the next call reuse the statics: every parameter the refreshed
+    values depend on must appear in the guard, else a later call with another value of that parameter silently reuses what was
+    computed for the previous one (for another object, another scale ...)."""
+    n = 0
+    for f in sorted(prog.funcs, key=lambda x: (x.file, x.line)):
+        if f.body is None:
+            continue
+        statics = {x["d"]: x["n"] for x in f.walk() if x["k"] == "VarDecl" and x.get("static")}
+        if not statics:
+            continue
+        params = {p["d"]: p["n"] for p in f.params}
+        for s_ in f.walk():
+            if s_["k"] != "If" or len(s_["c"]) < 2 or s_["c"][1] is None:
+                continue
+            cond, body = s_["c"][0], s_["c"][1]
+            assigned = [x for x in walk(body) if x["k"] == "Assign" and x.get("op") == "=" and x["c"][0] is not None and
+                        x["c"][0]["k"] == "DeclRefExpr" and x["c"][0].get("d") in statics]
+            if len(assigned) < 2:
+                continue
+            # the guard must compare something with a static (a memo key), else this is not a memo
+            cond_refs = {y.get("d") for y in walk(cond) if y["k"] == "DeclRefExpr"}
+            if not (cond_refs & set(statics)):
+                continue
+            # parameters the refreshed values depend on (through locals defined in the block or before it)
+            defs = {}
+            for x in f.walk():
+                if x["k"] == "VarDecl" and x.get("c") and not x.get("static"):
+                    defs.setdefault(x["d"], []).append(x["c"][0])
+            deps = set()
+
+            def collect(e, depth=0):
+                for y in walk(e) if e is not None else []:
+                    if y["k"] == "DeclRefExpr":
+                        d = y.get("d")
+                        if d in params:
+                            deps.add(d)
+                        elif d in defs and depth < 3:
+                            for dd in defs[d]:
+                                collect(dd, depth + 1)
+            for x in assigned:
+                collect(x["c"][1])
+            n += 1
+            chk.analysed(f)
+            missing = sorted(params[d] for d in deps if d not in cond_refs and not any(
+                y.get("d") == d for dd in [v for k, vs in defs.items() if k in cond_refs for v in vs] for y in walk(dd)))
+            ok = not missing
+            chk.ob("R10.4b", "%s: every parameter feeding the statics refreshed under `%s` is part of that guard" % (f.name, show(cond)[:40]), f.loc(s_), ok,
+                   detail=None if ok else "the refreshed statics (%s) depend on the parameter `%s`, which the guard does not look at: a later call with "
+                   "another value reuses the statics computed for the previous one" % (", ".join(sorted({statics[x["c"][0]["d"]] for x in assigned}))[:60], missing[0]),
+                   key="R10.4b|%s|%s" % (f.name, "+".join(missing) if missing else "ok"))
+    chk.floor("R10.4b", n, 1)
+
+
 # memoising classes: (memo fields, input fields): a method that rebinds an input must reset the memo
 MEMO = {"ANeigh": ({"_nbghMemo"}, {"_dbin", "_dbout"})}
 
@@ -958,7 +1046,7 @@ def r10_6b(prog, chk):
     chk.floor("R10.6b", n, 4)
 
 
-def r10_8(prog, chk, classes=("Vario",)):
+def r10_8(prog, chk, classes=("Vario", "AnamHermite")):
     """R10.8 - a calculation entry point starts from scratch.  Members that the methods of the class ACCUMULATE into
     (`m[..] += x`) must be reset (fill / assign / clear / whole assignment; a plain resize() keeps the old content) on every
     path from a public entry point to the first accumulation: otherwise a second calculation on the same object adds to the
@@ -1046,10 +1134,13 @@ def r10_8(prog, chk, classes=("Vario",)):
                         changed = True
             pub = {m["usr"] for m in prog.classes.get(K, {}).get("methods", []) if m.get("access") == "public"}
             for f in sorted(meths, key=lambda x: x.line):
-                if f.usr not in reach or f.usr not in pub or f.cfg is None or f.kind != "method" or f.usr in acc[fl] or f.short.startswith("_"):
+                if f.usr not in reach or f.usr not in pub or f.cfg is None or f.kind != "method" or f.short.startswith("_"):
+                    continue
+                # leaf updaters of one element (updateXxByIndex(i, v)) are the accumulation primitive itself, not a calculation
+                if f.usr in acc[fl] and not any(x["k"] in ("For", "While", "ForRange", "Do") for x in f.walk()):
                     continue
                 g_ = CFG(f)
-                accs = {c["i"] for c, g in this_callees(f) if g.usr in reach}
+                accs = {c["i"] for c, g in this_callees(f) if g.usr in reach} | {x["i"] for x in acc[fl].get(f.usr, [])}
                 rcalls = {c["i"] for c, g in this_callees(f) if g.usr in resetters}
                 if not accs:
                     continue
@@ -1157,6 +1248,9 @@ def r10_7(prog, chk, tier, units_done):
     cprog.load_dir(dh)
     n = copyrule.copy_agreement(cprog, chk, "R10.7", accepted=R107_ACCEPTED)
     chk.floor("R10.7", n, 700)
+    nc, nd = copyrule.ownership_rules(cprog, chk, "R10.7c", "R10.7d")
+    chk.floor("R10.7c", nc, 2)
+    chk.floor("R10.7d", nd, 20)
     r10_6b(cprog, chk)
 
 
@@ -1192,6 +1286,8 @@ def main(tier):
     r10_2d(prog, chk)
     r10_5(prog, chk)
     r10_6(prog, chk)
+    r10_5b(prog, chk)
+    r10_4b(prog, chk)
     r10_8(prog, chk)
     r10_9(prog, chk)
     r10_7(prog, chk, tier, units)
